@@ -524,6 +524,9 @@ inductive Cmd where
   | setf (id : Nat) (f : Nat) (v : Val)
   | unsetf (id : Nat) (f : Nat)
   | drop (id : Nat)
+  /-- the conditional drop (`DeleteObject(if_exists, if_unused)`) that garbage-collects
+      implicit types: skipped unless nothing (but the object itself) refers to it -/
+  | dropUnused (id : Nat)
 deriving Repr
 
 def dropSet (s : State) (id : Nat) : List Nat := collect s (s.idToData.length + 1) [id] []
@@ -552,6 +555,11 @@ def runCmd (s : State) : Cmd → Except Err State
     -- _delete_finalize: a referrer that is not itself being deleted blocks the drop
     if ds.all (fun x => (referrers s x).all (fun r => ds.contains r)) then deleteAll s ds
     else .error .schemaError
+  | .dropUnused id =>
+    if !present s id then .ok s else                   -- if_exists: nothing to do
+    -- _has_outside_references: any referrer that is not going away keeps the object
+    if [id].all (fun x => (referrers s x).all (fun r => [id].contains r)) then deleteAll s [id]
+    else .ok s
 
 def applyCmd (s : State) (cmd : Cmd) : State × Option Err :=
   match runCmd s cmd with
